@@ -148,6 +148,25 @@ CHECKS.update({
         'DESIGN.md section 4 C13'),
 })
 
+CHECKS.update({
+    'C17': (
+        'Coq proof (offset format / cftime zone reading round trip for every offset in (-24h, 24h); shape of the rendered string) + vm_compute correspondence + netCDF save/reopen differential',
+        'Theorems C17_* prove that the offset as the (repaired) code writes it is read back exactly by the model of cftime\'s zone '
+        'parser for every offset strictly between -24 h and +24 h, that the whole string has the form "<unit> since YYYY-MM-DD '
+        'HH:MM:SS [+-]HH:MM", that a reader honouring it resolves the same UTC instant, and (as _refuted witnesses) that the '
+        'formatter as it was before fix db07e4e fails at -09:30 and +05:00.  Per run: every 15-minute offset -12:00..+14:00 x '
+        'periods x epochs x six spellings goes through format_time_units_for_ems and is compared character by character with '
+        'the model, matched against the EMS form and re-read with cftime against an independently computed UTC instant; datasets '
+        'of every convention are written (fill values none / -999 / 0, float or packed int16), reopened, saved through '
+        'dataset.ems.to_netcdf (time encoded as read, with an integer dtype that forces xarray to re-base, or overridden by '
+        'the caller) and reopened: convention, polygons, every value, every instant, raw _FillValue / missing_value attributes '
+        'and the units string.',
+        'Trusted: Coq kernel; model TimeUnits.v.  PARTIAL: calendar arithmetic (cftime, datetime), the netCDF write/read and '
+        'xarray\'s CF encoding are not modelled - the file round trip is established per run only.  parse_zone is a model of '
+        'cftime\'s zone-designator reading validated by probing and by the per-run re-read.',
+        'DESIGN.md section 4 C17'),
+})
+
 NOT_YET = 'check not built yet in this session (work in progress; the design in DESIGN.md section 4 applies)'
 
 
